@@ -312,17 +312,22 @@ def run_recipe(ctx: Ctx, recipe: Dict[str, Any], cid: str) -> Case:
         return "~" if s is None else tok_str(s)
 
     def flush(sort_ties: bool = False) -> None:
-        # two timers due at the same instant fire in heap order: sort adjacent same-time trigger lines of a service
+        # timers due at the same instant fire in heap order: within a run of consecutive same-time trigger lines
+        # (of any service) the lines of each service are put in variable order, keeping their slots
         i = 0
         while i < len(obs):
             j = i
             t0 = obs[i].split()
             if sort_ties and t0[2] == "trig":
-                while j < len(obs) and obs[j].split()[:3] == t0[:3] and obs[j].split()[4] == t0[4]:
+                while j < len(obs) and obs[j].split()[2] == "trig" and obs[j].split()[4] == t0[4]:
                     j += 1
-                if j - i > 1:
-                    obs[i:j] = sorted(obs[i:j], key=lambda s: int(s.split()[3]))
-                    tags.add("timer-tie")
+                for svc in {ln.split()[0] for ln in obs[i:j]}:
+                    slots = [q for q in range(i, j) if obs[q].split()[0] == svc]
+                    if len(slots) > 1:
+                        ordered = sorted((obs[q] for q in slots), key=lambda s_: int(s_.split()[3]))
+                        for q, ln in zip(slots, ordered):
+                            obs[q] = ln
+                        tags.add("timer-tie")
             i = max(j, i + 1)
         lines.extend(obs)
         obs.clear()
@@ -600,6 +605,10 @@ def scenarios() -> List[Dict[str, Any]]:
                                              [1, "set", 0, False], ["adv", 100000], [0, "set", 0, 2], [1, "set", 1, 4], [1, "renew", "x", None, None],
                                              [0, "unsub", "x"], [1, "set", 1, 5], ["adv", 3000000], [0, "set", 1, "t"], ["adv", 3000000],
                                              [0, "set", 0, 3], [1, "set", 0, True], [1, "unsub", 0], [0, "renew", 0, None, None]]})
+    # timers of two services (and two per service) due at the same instant
+    out.append({"services": [[[True, 2000000, None, "boolean"], [True, 200000, None, "i4"]], [[True, 2000000, True, "boolean"], [True, 2000000, 1, "i4"]]],
+                "ops": [[0, "sub", "<http://h/a>", None], [1, "sub", "<http://h/b>", None], [0, "burst", [[0, False], [1, 1], [1, 2]]],
+                        [0, "burst", [[1, -3], [0, True], [1, 2147483647]]], [1, "burst", [[1, 7], [0, False], [1, 824]]], ["adv", 2000000]]})
     # delivery failures: the initial NOTIFY of one subscriber / one NOTIFY of a fan-out fails; the others go on
     for r0 in RATES:
         out.append({"vars": [[True, r0, 0], [True, 0, None]],
